@@ -1292,7 +1292,7 @@ static void CodeALIGN(Word Index) {
         Byte         AlignFill = 0;
         Boolean      OK        = True;
         tSymbolFlags Flags     = eSymbolFlag_None;
-        LongInt      NewPC;
+        LargeWord    NewPC;
 
         if (2 == ArgCnt) {
             AlignFill = EvalStrIntExpressionWithFlags(&ArgStr[2], Int8, &OK, &Flags);
